@@ -54,6 +54,20 @@ theorem semApply_bounded (w : Ex) (lo hi : Rat) (hv : (Ex.bounded w lo hi).valid
     simp only [Ex.subMergers, matchIdx_any_false hm, Ex.assemble, hm, Bool.false_eq_true, if_false]
     exact ih d o rest os r hdw ho
 
+theorem semApply_unary (u : Nat) (w : Ex) (hv : (Ex.unary u w).valid = true)
+    (hp : (Ex.unary u w).noPtile = true) (ih : SemApply w subs j cj p) :
+    SemApply (.unary u w) subs j cj p := by
+  cases hm : (Ex.unary u w).matchIdx subs with
+  | some i =>
+    apply semApply_node_some hj hf p hv hp hm _ (fun st => by simp only [Ex.assemble, hm])
+    simp only [Ex.subMergers, matchIdx_any_true hm, if_true]
+    exact getD_map_sub subs _ j cj hj
+  | none =>
+    intro d o rest os r hd ho
+    have hdw : WF w d := hd
+    simp only [Ex.subMergers, matchIdx_any_false hm, Ex.assemble, hm, Bool.false_eq_true, if_false]
+    exact ih d o rest os r hdw ho
+
 /-- STAGE 1, kept column: by induction on the expression -/
 theorem semApply_all : ∀ (e : Ex), e.valid = true → e.noPtile = true → e.shiftFree = true →
     SemApply e subs j cj p := by
@@ -86,13 +100,8 @@ theorem semApply_all : ∀ (e : Ex), e.valid = true → e.noPtile = true → e.s
       (ih (by simpa [Ex.valid] using hv) (by simpa [Ex.noPtile] using hp) (by simpa [Ex.shiftFree] using hs))
   | unary f w ih =>
     intro hv hp hs
-    intro d o rest os r hd ho
-    have := ih (by simpa [Ex.valid] using hv) (by simpa [Ex.noPtile] using hp) (by simpa [Ex.shiftFree] using hs)
-      d o rest os r hd ho
-    have hm : (Ex.unary f w).mrg d (w.assemble subs p (singleCol subs j o)) =
-        w.mrg d (w.assemble subs p (singleCol subs j o)) := rfl
-    simp only [Ex.subMergers, Ex.assemble]
-    rw [hm]; exact this
+    exact semApply_unary hj hf p f w hv hp
+      (ih (by simpa [Ex.valid] using hv) (by simpa [Ex.noPtile] using hp) (by simpa [Ex.shiftFree] using hs))
   | shift w off _ => intro _ _ hs; simp [Ex.shiftFree] at hs
   | ptile id v pe n _ _ => intro _ hp; simp [Ex.noPtile] at hp
 
@@ -121,7 +130,7 @@ theorem assemble_single_dropped (subs : List Ex) (j : Nat) (hnf : ¬ FirstCol su
   | bin op l r ihl ihr => simp only [Ex.assemble]; exact node _ _ (by rw [ihl, ihr]; rfl)
   | ifE c w ih => simp only [Ex.assemble]; exact node _ _ (by rw [ih]; simp [Ex.empty])
   | bounded w lo hi ih => simp only [Ex.assemble]; exact node _ _ (by rw [ih]; rfl)
-  | unary f w ih => simpa only [Ex.assemble, Ex.empty] using ih
+  | unary f w ih => simp only [Ex.assemble]; exact node _ _ (by rw [ih]; rfl)
   | shift w off _ => rfl
   | ptile id v pe n _ _ => rfl
 
